@@ -24,6 +24,8 @@ use std::sync::Arc;
 
 #[derive(Clone, Copy, PartialEq, Eq, Debug)]
 pub enum Engine {
+    /// workers one after the other on the calling thread (deterministic pre-pass)
+    Seq,
     Std,
     #[cfg(feature = "threads")]
     Shuttle,
@@ -41,15 +43,14 @@ fn new_ctx(prop: &str, salt: u64) -> Ctx {
 
 type WorkerResult = Result<(Key, Exp, Stats), Abort>;
 
-fn worker<P: SimPrefix>(view: TrieViewMut<'_, P, Val>, acts: &[MAct], t0: &Truth, engine: Engine, wi: usize) -> WorkerResult {
+fn worker<P: SimPrefix>(view: TrieViewMut<'_, P, Val>, root: Key, acts: &[MAct], t0: &Truth, engine: Engine, wi: usize) -> WorkerResult {
     #[cfg(feature = "threads")]
     if engine == Engine::Shuttle {
         prefix_trie::verif_hooks::set_yield(Some(shuttle_yield));
     }
     let _ = engine;
-    let root = view.prefix().raw().key();
     let mut ctx = new_ctx("C14", 0x77 + wi as u64);
-    let r = run_session(&mut ctx, None, 0, view, t0, acts);
+    let r = run_session(&mut ctx, None, 0, view, root, t0, acts);
     r.map(|(exp, _, _)| (root, exp, ctx.stats))
 }
 
@@ -99,7 +100,11 @@ fn exec_scn_typed<P: SimPrefix>(scn: &ThreadScn, engine: Engine) -> Result<ScnOu
     let merged: BTreeMap<Key, (crate::key::Raw, u64)>;
     {
         // 2. cut the whole-map view into disjoint views
-        let mut pool: Vec<TrieViewMut<'_, P, Val>> = vec![(&mut real).view_mut()];
+        let mut pool: Vec<(TrieViewMut<'_, P, Val>, Key)> = vec![((&mut real).view_mut(), Key::ZERO)];
+        fn put<'v, P: SimPrefix>(pool: &mut Vec<(TrieViewMut<'v, P, Val>, Key)>, v: TrieViewMut<'v, P, Val>, parent: Key) {
+            let region = crate::views::narrow(parent, v.prefix().raw().key());
+            pool.push((v, region));
+        }
         for c in &scn.cuts {
             let n = pool.len();
             if n == 0 {
@@ -107,22 +112,26 @@ fn exec_scn_typed<P: SimPrefix>(scn: &ThreadScn, engine: Engine) -> Result<ScnOu
             }
             match c {
                 MAct::Split(i) => {
-                    let v = pool.swap_remove(*i as usize % n);
+                    let (v, d) = pool.swap_remove(*i as usize % n);
                     let (l, r) = v.split();
-                    pool.extend(l);
-                    pool.extend(r);
+                    if let Some(l) = l {
+                        put(&mut pool, l, d);
+                    }
+                    if let Some(r) = r {
+                        put(&mut pool, r, d);
+                    }
                 }
                 MAct::Left(i) => {
-                    let v = pool.swap_remove(*i as usize % n);
-                    pool.push(v.left().unwrap_or_else(|o| o));
+                    let (v, d) = pool.swap_remove(*i as usize % n);
+                    put(&mut pool, v.left().unwrap_or_else(|o| o), d);
                 }
                 MAct::Right(i) => {
-                    let v = pool.swap_remove(*i as usize % n);
-                    pool.push(v.right().unwrap_or_else(|o| o));
+                    let (v, d) = pool.swap_remove(*i as usize % n);
+                    put(&mut pool, v.right().unwrap_or_else(|o| o), d);
                 }
                 MAct::Find(i, q) => {
-                    let v = pool.swap_remove(*i as usize % n);
-                    pool.push(v.find(P::make(*q)).unwrap_or_else(|o| o));
+                    let (v, d) = pool.swap_remove(*i as usize % n);
+                    put(&mut pool, v.find(P::make(*q)).unwrap_or_else(|o| o), d);
                 }
                 _ => {}
             }
@@ -132,13 +141,14 @@ fn exec_scn_typed<P: SimPrefix>(scn: &ThreadScn, engine: Engine) -> Result<ScnOu
         // 3. one worker per view
         let t0r = &t0;
         let results: Vec<WorkerResult> = match engine {
+            Engine::Seq => pool.into_iter().zip(scn.workers.iter()).enumerate().map(|(wi, ((v, d), a))| worker(v, d, a, t0r, engine, wi)).collect(),
             Engine::Std => std::thread::scope(|s| {
-                let hs: Vec<_> = pool.into_iter().zip(scn.workers.iter()).enumerate().map(|(wi, (v, a))| s.spawn(move || worker(v, a, t0r, engine, wi))).collect();
+                let hs: Vec<_> = pool.into_iter().zip(scn.workers.iter()).enumerate().map(|(wi, ((v, d), a))| s.spawn(move || worker(v, d, a, t0r, engine, wi))).collect();
                 hs.into_iter().map(|h| h.join().expect("worker thread panicked")).collect()
             }),
             #[cfg(feature = "threads")]
             Engine::Shuttle => shuttle::thread::scope(|s| {
-                let hs: Vec<_> = pool.into_iter().zip(scn.workers.iter()).enumerate().map(|(wi, (v, a))| s.spawn(move || worker(v, a, t0r, engine, wi))).collect();
+                let hs: Vec<_> = pool.into_iter().zip(scn.workers.iter()).enumerate().map(|(wi, ((v, d), a))| s.spawn(move || worker(v, d, a, t0r, engine, wi))).collect();
                 hs.into_iter().map(|h| h.join().expect("worker thread panicked")).collect()
             }),
         };
@@ -200,7 +210,7 @@ pub fn cmd_std(opts: &BTreeMap<String, String>) -> i32 {
         let mut idx = from;
         while out.len() < want && idx < from + 100_000 {
             let scn = gen_thread_scn(seed, idx, small);
-            if let Ok(o) = exec_scn(&scn, Engine::Std) {
+            if let Ok(o) = exec_scn(&scn, Engine::Seq) {
                 if o.workers >= 2 && o.entries >= 3 {
                     out.push(idx.to_string());
                 }
@@ -238,9 +248,9 @@ pub fn cmd_threads(opts: &BTreeMap<String, String>) -> i32 {
     use shuttle::{Config, FailurePersistence, Runner};
     let seed: u64 = opts.get("seed").cloned().or_else(|| std::env::var("VERIF_SEED").ok()).and_then(|s| s.parse().ok()).unwrap_or(20260927);
     let thorough = opts.get("tier").map(|t| t == "thorough").unwrap_or(false);
-    let nscn: u64 = opts.get("scenarios").and_then(|s| s.parse().ok()).unwrap_or(if thorough { 400 } else { 48 });
-    let n_rand: usize = opts.get("random").and_then(|s| s.parse().ok()).unwrap_or(if thorough { 400 } else { 60 });
-    let n_pct: usize = opts.get("pct").and_then(|s| s.parse().ok()).unwrap_or(if thorough { 200 } else { 30 });
+    let nscn: u64 = opts.get("scenarios").and_then(|s| s.parse().ok()).unwrap_or(if thorough { 4000 } else { 400 });
+    let n_rand: usize = opts.get("random").and_then(|s| s.parse().ok()).unwrap_or(if thorough { 600 } else { 150 });
+    let n_pct: usize = opts.get("pct").and_then(|s| s.parse().ok()).unwrap_or(if thorough { 200 } else { 50 });
     let out_dir = opts.get("out").cloned().unwrap_or_else(|| "/verif/replays".into());
     let evidence = opts.get("evidence").cloned();
     let t0 = std::time::Instant::now();
@@ -252,6 +262,20 @@ pub fn cmd_threads(opts: &BTreeMap<String, String>) -> i32 {
         let rf: serde_json::Value = serde_json::from_str(&txt).expect("parse replay file");
         let scn: ThreadScn = serde_json::from_value(rf["scenario"].clone()).expect("scenario");
         let sched = rf["schedule"].as_str().unwrap_or("").to_string();
+        if sched.is_empty() {
+            // found in the sequential pre-pass (workers one after the other): no schedule to replay
+            return match exec_scn(&scn, Engine::Seq) {
+                Err(v) => {
+                    println!("replay: violation sig={} :: {}", v.sig, v.detail);
+                    println!("VIOLATION property=C14 replay={file}");
+                    1
+                }
+                Ok(_) => {
+                    println!("replay: no violation");
+                    0
+                }
+            };
+        }
         let failed: Arc<std::sync::Mutex<Option<Violation>>> = Arc::new(std::sync::Mutex::new(None));
         let f2 = failed.clone();
         let scn2 = Arc::new(scn);
@@ -298,9 +322,9 @@ pub fn cmd_threads(opts: &BTreeMap<String, String>) -> i32 {
                     let mut idx = tid as u64;
                     while idx < nscn {
                         let scn = Arc::new(gen_thread_scn(seed, idx, false));
-                        // dry run on real threads: scenarios that end up with a single worker have
+                        // sequential pre-pass: scenarios that end up with a single worker have
                         // no interleaving to explore (and PCT refuses them)
-                        let multi = match exec_scn(&scn, Engine::Std) {
+                        let multi = match exec_scn(&scn, Engine::Seq) {
                             Ok(o) => o.workers >= 2,
                             Err(v) => {
                                 res.push((idx, 0, false, Some((v, String::new(), (*scn).clone())), Stats::default()));
